@@ -74,6 +74,7 @@ type coreSim struct {
 	rcvWndMax [2]uint32 // largest receive window configured so far
 	shrunk    [2]bool   // the application lowered its receive window below its backlog (profile shrinkWnd)
 	txTime    [2]uint32 // ms the output callback of endpoint e blocks per datagram (a slow link; 0: instantaneous)
+	owesWins  [2]bool   // Recv made room in a full delivery queue and no WINS segment has been emitted since
 }
 
 func (s *coreSim) logf(format string, a ...any) {
@@ -194,6 +195,13 @@ func (s *coreSim) collect(e int) [][]byte {
 	o := s.cur
 	s.cur = nil
 	for _, d := range o {
+		if segs, ok := parseWire(d); ok {
+			for _, w := range segs {
+				if w.cmd == IKCP_CMD_WINS {
+					s.owesWins[e] = false
+				}
+			}
+		}
 		s.pend[e] = append(s.pend[e], corePkt{s.npkt, d})
 		s.npkt++
 		s.monOutput(e, d)
@@ -234,6 +242,7 @@ func (s *coreSim) Recv(e int, buflen int) int {
 	s.ops = append(s.ops, fmt.Sprintf("recv %d %d %d", e, s.now, buflen))
 	buf := make([]byte, buflen)
 	var n int
+	wasFull := s.k[e].rcv_queue.Len() >= int(s.k[e].rcv_wnd)
 	p, why := s.guarded(func() { n = s.k[e].Recv(buf) })
 	if p {
 		s.logf("recv %d %d %d = P\n", e, s.now, buflen)
@@ -248,6 +257,9 @@ func (s *coreSim) Recv(e int, buflen int) int {
 	s.tr("recv %d %d = %d %s", e, buflen, n, hx(d))
 	s.state(e)
 	s.stats["recv"]++
+	if n >= 0 && wasFull && s.k[e].rcv_queue.Len() < int(s.k[e].rcv_wnd) {
+		s.owesWins[e] = true
+	}
 	if n >= 0 {
 		s.delivered[e] = append(s.delivered[e], append([]byte(nil), d...))
 		s.monPrefix(e)
@@ -310,7 +322,15 @@ func (s *coreSim) Flush(e int, full bool) uint32 {
 		s.panicked("flush", why)
 		return 0
 	}
+	owed := s.owesWins[e]
 	o := s.collect(e)
+	if curMon.reopen && owed && s.owesWins[e] {
+		s.rep.Monitors["reopened-window-announced"]++
+		s.owesWins[e] = false
+		s.violate("core-reopen-not-announced", fmt.Sprintf("endpoint %d: the reader made room in a full delivery queue (rcv_wnd %d), yet the next flush carries no window announcement (WINS): the peer, told the window was closed, learns of the room only through its own back-off probes", e, s.k[e].rcv_wnd))
+	} else if curMon.reopen && owed {
+		s.rep.Monitors["reopened-window-announced"]++
+	}
 	s.logf("flush %d %d %d = %d %s\n", e, t0, ft, next, outsStr(o))
 	s.tr("flush %d %d @%d = %d %s", e, ft, t0-s.cfg.Clock, next, s.normOuts(e, o))
 	s.state(e)
@@ -469,6 +489,7 @@ type coreMon struct {
 	outputSize bool
 	rto        bool
 	cc         bool // congestion-control clauses of C04 (cwnd after a timeout loss)
+	reopen     bool // C03: a reader that makes room in a FULL delivery queue has the re-opened window announced (WINS) by the next flush
 }
 
 var curMon coreMon
